@@ -25,6 +25,9 @@ package crashmonitor
 // parseStackPCs is total: no panic on any text, and the scan terminates.
 //@ contract parseStackPCs
 //@   ensures result1 != nil ==> len(result0) == 0
+// The sentinel is taken from the first "sentinel " line only: later text that
+// looks like one cannot shift the program counters.
+//@   at call Sscanf#1: assert parentSentinel == 0
 //@   loop 1: invariant 0 <= i && i <= len(lines)
 //@   loop 1: decreases len(lines)-i
 //@   modifies nothing
